@@ -3,7 +3,10 @@
 // (one per anonymous configuration, identities loaded from a config file) in front of a
 // real filer, and records what reached the filer: every filer gRPC / HTTP call made
 // while the request was in flight (interceptors on the filer's servers) and whether the
-// namespace changed. Mode "iam": feeds policy documents to the real iamapi.GetActions.
+// namespace changed. Event "sreq": a streaming-signed upload whose aws-chunked body is built
+// chunk by chunk from the script (stream.go). Mode "iam": feeds policy documents to the real
+// iamapi.GetActions. Mode "iamapi": a real IAM API server (iamapi.NewIamApiServer) over the real
+// filer next to a real gateway that takes its identities from the filer (iamapi.go).
 // The driver decides nothing; S3AuthTrace.tla judges the recorded events.
 package main
 
@@ -13,7 +16,6 @@ import (
 	"fmt"
 	"io/ioutil"
 	"net/http"
-	"strings"
 	"time"
 
 	"github.com/gorilla/mux"
@@ -35,6 +37,7 @@ var (
 	gateways = map[string]string{} // config path -> gateway address
 	baseline s3util.Snapshot
 	dirty    = true
+	reqNo    = 0
 	client   = &http.Transport{MaxIdleConnsPerHost: 16}
 )
 
@@ -70,7 +73,12 @@ func gateway(cfg string) string {
 }
 
 func snap() s3util.Snapshot {
-	s, err := s3util.Snap(fc, "/topics")
+	skip := []string{"/topics"}
+	if iamAddr != "" {
+		// mode iamapi: /etc/iam is what the IAM API calls (and the reset before an execution) change
+		skip = append(skip, "/etc")
+	}
+	s, err := s3util.Snap(fc, skip...)
 	must(err, "snapshot")
 	return s
 }
@@ -102,34 +110,45 @@ func params(route, bucket string) s3util.P {
 	return p
 }
 
-func doReq(addr string, e tr.Ev) {
-	route, style, cred := tr.S(e, "route"), tr.S(e, "style"), tr.S(e, "cred")
-	bucket := tr.S(e, "bucket")
-	if bucket == "" {
-		bucket = "b1"
-	}
-	acts := tr.S(e, "acts")
-	ak, sk := "AK"+acts, "SK"+acts+"0123456789abcdef"
+// the key pair a request of identity `acts` is signed with, as the credential kind says
+func keyPair(acts, cred string) (ak, sk string) {
+	ak, sk = "AK"+acts, "SK"+acts+"0123456789abcdef"
 	switch cred {
 	case "wrongsecret":
 		sk += "x"
 	case "unknownkey":
 		ak = "AKNOBODY"
 	}
+	return
+}
+
+func doReq(addr string, e tr.Ev) {
+	route, style, cred := tr.S(e, "route"), tr.S(e, "style"), tr.S(e, "cred")
+	bucket := tr.S(e, "bucket")
+	if bucket == "" {
+		bucket = "b1"
+	}
+	ak, sk := keyPair(tr.S(e, "acts"), cred)
 	tamper := cred == "tampered"
 	now := time.Now().UTC()
 	p := params(route, bucket)
 	r, err := s3util.Build(route, p)
 	must(err, "build")
 	r.Header.Set("X-Amz-Meta-T", "a")
-	signedStyle := map[string]bool{"V2H": true, "V2P": true, "V4H": true, "V4P": true, "V4S": true, "POSTPOL": true}[style]
+	signedStyle := map[string]bool{"V2H": true, "V2P": true, "V4H": true, "V4P": true, "V4S": true, "POSTPOL": true, "POSTPOL2": true}[style]
 	// browser-form bodies: the PostPolicy route only matches multipart/form-data requests
-	if route == "PostPolicy" || style == "POSTPOL" {
+	if route == "PostPolicy" || style == "POSTPOL" || style == "POSTPOL2" {
 		exp := now.Add(time.Hour)
 		if cred == "expired" {
 			exp = now.Add(-time.Hour)
 		}
-		body, ct := s3util.PostForm(bucket, "posted", []byte("FORMDATA"), signedStyle, ak, sk, now, exp, tamper)
+		var body []byte
+		var ct string
+		if style == "POSTPOL2" {
+			body, ct = s3util.PostFormV2(bucket, "posted", []byte("FORMDATA"), ak, sk, exp, tamper)
+		} else {
+			body, ct = s3util.PostForm(bucket, "posted", []byte("FORMDATA"), signedStyle, ak, sk, now, exp, tamper)
+		}
 		r.Body = body
 		r.Header.Set("Content-Type", ct)
 	} else if r.Body != nil {
@@ -173,13 +192,22 @@ func doReq(addr string, e tr.Ev) {
 	case "BEARER":
 		req.Header.Set("Authorization", "Bearer x")
 	}
-	if tamper && style != "POSTPOL" {
+	if tamper && style != "POSTPOL" && style != "POSTPOL2" {
 		req.Header.Set("X-Amz-Meta-T", "b") // covered by every header / presigned signature made above
 	}
+	sendAndRecord(req, e)
+}
+
+// sendAndRecord sends one request and adds the observations to e: status, the filer calls made
+// while it was in flight, whether (and where) the namespace differs from the baseline.
+func sendAndRecord(req *http.Request, e tr.Ev) {
 	if dirty {
 		provision()
 	}
-	rec.Begin()
+	reqNo++
+	tag := fmt.Sprintf("r%d", reqNo)
+	req.Header.Set(s3util.ReqTag, tag) // not covered by any signature made above
+	rec.BeginTag(tag)
 	resp, err := client.RoundTrip(req)
 	status := 0
 	if err == nil {
@@ -224,12 +252,7 @@ func doPol(e tr.Ev) {
 	must(json.Unmarshal(b, &parsed), "policy json")
 	out := make([]interface{}, 0)
 	for _, a := range iamapi.GetActions(&parsed) {
-		i := strings.Index(a, ":")
-		if i < 0 {
-			out = append(out, map[string]interface{}{"a": a, "b": ""})
-		} else {
-			out = append(out, map[string]interface{}{"a": a[:i], "b": a[i+1:]})
-		}
+		out = append(out, splitAction(a))
 	}
 	e["out"] = out
 }
@@ -257,6 +280,11 @@ func main() {
 		}
 		s3util.RmRecursive(fc, "/", "warmup")
 		_ = context.Background
+		if o.Mode == "iamapi" {
+			// every gateway follows /etc/iam/identity.json of its filer, also one started with a
+			// config file: IAM executions get a driver process of their own
+			iamStart()
+		}
 	}
 	for _, ex := range execs {
 		w.Emit(ex[0])
@@ -264,11 +292,53 @@ func main() {
 		if cfg := tr.S(ex[0], "zcfg"); cfg != "" {
 			addr = gateway(cfg)
 		}
+		synced, nsync := false, 0
+		if o.Mode == "iamapi" {
+			iamReset()
+		}
 		for _, e := range ex[1:] {
 			var pan string
+			if tr.S(e, "ev") == "ireq" && !synced {
+				// the gateway learns of identity changes through its metadata subscription: wait
+				// until it has seen the last one (an access key made now is accepted)
+				// (an identity change now and then reaches the subscription only together with the next
+				// one: after 3 s another key is made)
+				failed := false
+				for attempt := 0; ; attempt++ {
+					nsync++
+					sk := fmt.Sprintf("ks%d", nsync)
+					se := tr.Ev{"ev": "iamop", "op": "CreateAccessKey", "user": "zsync", "key": sk, "pname": "", "stmts": []interface{}{}}
+					if p := tr.Guard(func() { doIamOp(se) }); p != "" {
+						w.Emit(tr.Ev{"ev": "panic", "op": se, "msg": p})
+						failed = true
+						break
+					}
+					w.Emit(se)
+					if iamAwait(sk) {
+						break
+					}
+					if attempt == 39 {
+						tr.Fatal("the gateway did not pick up the identity changes within 120 s")
+					}
+				}
+				if failed {
+					break
+				}
+				synced = true
+			}
 			switch tr.S(e, "ev") {
 			case "req":
 				pan = tr.Guard(func() { doReq(addr, e) })
+			case "sreq":
+				pan = tr.Guard(func() { doSReq(addr, e) })
+			case "iamop":
+				if tr.S(e, "user") == "zsync" {
+					continue // a replayed script: the synchronisation calls are made anew
+				}
+				pan = tr.Guard(func() { doIamOp(e) })
+				synced = false
+			case "ireq":
+				pan = tr.Guard(func() { doIReq(e) })
 			case "pol":
 				pan = tr.Guard(func() { doPol(e) })
 			default:
